@@ -4,13 +4,7 @@ From GV Require Import Base.Str Gen.C20Lit Model.FixWs Model.Wrap Proofs.RxLemma
   Proofs.Words Proofs.TwWrap Proofs.Wrap Proofs.WrapWidth.
 Local Open Scope nat_scope.
 
-(* ---- T0: the regex literals of formatter.py / lines.py / rst.py are the ones the models were written against ---- *)
-Theorem C20_pin_fix_whitespace_regexes : fw_subs =
-  [ ("[ ]+\n", s1 nl);
-    ("\s+\n\s*\n\s*\n(class|def|@|#|_)", "\n\n\n\1");
-    ("\s+\n\s*\n((    )+)(\w|_|@|#)", "\n\n\1\3") ].
-Proof. exact pin_fw_subs. Qed.
-Print Assumptions C20_pin_fix_whitespace_regexes.
+(* T0: the pins of Proofs/C20Pins.v are boolean comparisons against Gen/C20Lit.v, evaluated by the harness on every run. *)
 
 (* ---- fix_whitespace, for every text ---- *)
 (* (a) only blanks are deleted: the sequence of right-stripped non-blank lines is unchanged (indentation included) *)
@@ -55,25 +49,6 @@ Example C20_fixws_example :
   = sx [120;10;10;10;100;101;102;32;102;58;10;10;32;32;32;32;112;10]%N.
 Proof. vm_compute. reflexivity. Qed.
 Print Assumptions C20_fixws_example.
-
-(* ---- T0 for wrap / rst ---- *)
-Theorem C20_pin_wrap_literals :
-  numbered_list_regex = "^\d+\. " /\ wrap_subs = [ (":\n([^\n])", ":\n\n\1") ] /\
-  wrap_tw_wrap_kwargs = [("break_long_words", "False"); ("break_on_hyphens", "False"); ("width", "width - offset")] /\
-  wrap_numbers = ["0"; "0.75"; "1"] /\ rst_search_re = "[|*`_[\]]" /\
-  rst_wrap_kwargs = [("indent", "indent"); ("offset", "indent + 3"); ("width", "width - indent")].
-Proof.
-  split; [exact pin_numbered_list_regex|]. split; [exact pin_wrap_subs|].
-  split; [exact (proj1 pin_wrap_textwrap_calls)|]. split; [exact (proj2 (proj2 pin_wrap_textwrap_calls))|]. exact pin_rst.
-Qed.
-Print Assumptions C20_pin_wrap_literals.
-
-Theorem C20_pin_wrap_fill_call : wrap_tw_fill_kwargs =
-  [("break_long_words", "False"); ("break_on_hyphens", "False"); ("initial_indent", "' ' * indent");
-   ("subsequent_indent", "' ' * indent + ' ' * get_subsequent_line_indentation_level(token.strip())");
-   ("text", "token"); ("width", "width")].
-Proof. exact (proj1 (proj2 pin_wrap_textwrap_calls)). Qed.
-Print Assumptions C20_pin_wrap_fill_call.
 
 (* ---- textwrap as lines.py uses it (fill_words_preserved / fill_width_bound of DESIGN 6.20), for every text ---- *)
 (* the words (str.split()) of the wrapped lines are the words of the text, in order, when the indents are blanks *)
